@@ -243,20 +243,21 @@ theorem castCmp_obl (m : TraitFn) (conv : Expr → Expr) (h1 : (conv vSelf).oblB
     (h2 : (conv vOther).oblBad ok = false) : (castCmp m conv).oblBad ok = false := by
   simp [castCmp, Expr.oblBad, Expr.nodeBad, Stmt.nodeBad, argsBad, Expr.fieldRef, TraitFn.trait, Expr.anyOblBad, h1, h2]
 
-theorem derefCast_obl (r : IntTy) (h : ok .copySelf = true) :
+theorem derefCast_obl (r : IntTy) (h : ok .copySelf = true) (hd : ok .noDrop = true) :
     (Expr.cast (.deref vSelf) r).oblBad ok = false ∧ (Expr.cast (.deref vOther) r).oblBad ok = false := by
-  simp [Expr.oblBad, Expr.nodeBad, vSelf, vOther, h]
+  simp [Expr.oblBad, Expr.nodeBad, vSelf, vOther, h, hd]
 
-theorem cloneCast_obl (r : IntTy) (h : ok (.self_ .clone) = true) :
+theorem cloneCast_obl (r : IntTy) (h : ok (.self_ .clone) = true) (hd : ok .noDrop = true) :
     (Expr.cast (.selfCall .clone [vSelf]) r).oblBad ok = false ∧ (Expr.cast (.selfCall .clone [vOther]) r).oblBad ok = false := by
-  simp [Expr.oblBad, Expr.nodeBad, Expr.anyOblBad, TraitFn.trait, vSelf, vOther, h]
+  simp [Expr.oblBad, Expr.nodeBad, Expr.anyOblBad, TraitFn.trait, vSelf, vOther, h, hd]
 
 /-- The discriminant comparison raises `Self: Copy` only when `Copy` is derived in the same attribute and
 `Self: Clone` only when `Clone` is. -/
 theorem ordBodyElse_obl (c : Cfg) (dw : DeriveWhere) (disc : Discriminant)
     (vs : List Data) (m : TraitFn)
     (hcopy : dw.contains .copy = true → ok .copySelf = true)
-    (hclone : dw.contains .clone = true → ok (.self_ .clone) = true) :
+    (hclone : dw.contains .clone = true → ok (.self_ .clone) = true)
+    (hnd : (dw.contains .copy = true ∨ dw.contains .clone = true) → ok .noDrop = true) :
     Stmt.anyOblBad ok (ordBodyElse c dw disc vs m).stmts = false ∧
       (ordBodyElse c dw disc vs m).tail.oblBad ok = false := by
   have hvalidate : Stmt.anyOblBad ok ((if vs.any (·.discriminant.isSome) = true then
@@ -270,11 +271,11 @@ theorem ordBodyElse_obl (c : Cfg) (dw : DeriveWhere) (disc : Discriminant)
     simp only [ordBodyElse]
     split
     · rename_i h
-      have := derefCast_obl (ok := ok) .isize (hcopy h)
+      have := derefCast_obl (ok := ok) .isize (hcopy h) (hnd (.inl h))
       exact ⟨hvalidate, castCmp_obl (ok := ok) m (fun e => .cast (.deref e) .isize) this.1 this.2⟩
     · split
       · rename_i h
-        have := cloneCast_obl (ok := ok) .isize (hclone h)
+        have := cloneCast_obl (ok := ok) .isize (hclone h) (hnd (.inr h))
         exact ⟨hvalidate, castCmp_obl (ok := ok) m (fun e => .cast (.selfCall .clone [e]) .isize) this.1 this.2⟩
       · exact discriminantComparison_obl (ok := ok) none _ vs m hvalidate
   | data => exact discriminantComparison_obl (ok := ok) none none vs m rfl
@@ -282,11 +283,11 @@ theorem ordBodyElse_obl (c : Cfg) (dw : DeriveWhere) (disc : Discriminant)
     simp only [ordBodyElse]
     split
     · rename_i h
-      have := derefCast_obl (ok := ok) r (hcopy h)
+      have := derefCast_obl (ok := ok) r (hcopy h) (hnd (.inl h))
       exact ⟨rfl, castCmp_obl (ok := ok) m (fun e => .cast (.deref e) r) this.1 this.2⟩
     · split
       · rename_i h
-        have := cloneCast_obl (ok := ok) r (hclone h)
+        have := cloneCast_obl (ok := ok) r (hclone h) (hnd (.inr h))
         exact ⟨rfl, castCmp_obl (ok := ok) m (fun e => .cast (.selfCall .clone [e]) r) this.1 this.2⟩
       · have := discriminantComparison_obl (ok := ok) (some r) none vs m rfl
         split
@@ -313,7 +314,8 @@ theorem ordBodyEqual_obl (c : Cfg) (it : Item) (vs : List Data) (t : Trait)
 theorem obl_ordSignature (c : Cfg) (it : Item) (dw : DeriveWhere) (t : Trait)
     (arms : List Arm) (harms : Arm.anyOblBad ok arms = false)
     (hcopy : dw.contains .copy = true → ok .copySelf = true)
-    (hclone : dw.contains .clone = true → ok (.self_ .clone) = true) :
+    (hclone : dw.contains .clone = true → ok (.self_ .clone) = true)
+    (hnd : (dw.contains .copy = true ∨ dw.contains .clone = true) → ok .noDrop = true) :
     (ordSignature c it dw t arms).oblBad ok = false := by
   have hsingle : (if it.isEmpty t = true then equalExpr t else Expr.match_ tupleSO arms).oblBad ok = false := by
     split
@@ -351,7 +353,7 @@ theorem obl_ordSignature (c : Cfg) (it : Item) (dw : DeriveWhere) (t : Trait)
             | some be =>
               simp [Expr.oblBad, Expr.nodeBad, Stmt.nodeBad, argsBad, Expr.fieldRef, TraitFn.trait, Stmt.anyOblBad_append, ordIncStmts_obl (ok := ok), letDiscs, Stmt.anyOblBad,
                 Stmt.oblBad, Expr.anyOblBad, vSelf, vOther, discsEqual, hbe be hb]
-          · have helse := ordBodyElse_obl (ok := ok) c dw disc vs (ordFn t) hcopy hclone
+          · have helse := ordBodyElse_obl (ok := ok) c dw disc vs (ordFn t) hcopy hclone hnd
             unfold ordStable
             cases hb : ordBodyEqual c (.enum_ disc id inc vs) vs t arms with
             | none =>
@@ -495,7 +497,9 @@ theorem zodStmts_obl (d : Data) (hz : ok (.self_ .zeroize) = true) : Stmt.anyObl
 * `Self: Copy` when `Copy` is derived in the same attribute (`*self`), and for unions (`__AssertCopy<Self>`),
 * `Self: Clone` when `Clone` is derived in the same attribute (discriminant through `Clone::clone(self) as R`),
 * `Self: Ord` when `PartialOrd` delegates to the `Ord` impl of the same attribute with only custom bounds,
-* `Self: Zeroize` in the `Drop` impl without `zeroize-on-drop` (the documented requirement of that configuration). -/
+* `Self: Zeroize` in the `Drop` impl without `zeroize-on-drop` (the documented requirement of that configuration),
+* "`Self` has no `Drop` impl" in `PartialOrd` / `Ord` next to a `Copy` or `Clone` of the same attribute (the `as` cast of the
+  discriminant shortcut; rustc refuses to cast an enum that implements `Drop`). -/
 theorem obl_generateBody (c : Cfg) (it : Item) (dw : DeriveWhere) (t : Trait)
     (hok : ∀ x ∈ it.indexed, ∀ t' : Trait, (t' = t ∨ (t = .partialOrd ∧ t' = .ord) ∨ (t = .ord ∧ t' = .partialOrd)) →
       ∀ p ∈ x.2.iterFields t', ok (.field x.1 p.1 t') = true)
@@ -503,7 +507,8 @@ theorem obl_generateBody (c : Cfg) (it : Item) (dw : DeriveWhere) (t : Trait)
     (hunion : isUnion it = true → ok .copySelf = true)
     (hclone : dw.contains .clone = true → ok (.self_ .clone) = true)
     (hord : (dw.shortcut && dw.contains .ord) = true → ok (.self_ .ord) = true)
-    (hzero : ok (.self_ .zeroize) = true) :
+    (hzero : ok (.self_ .zeroize) = true)
+    (hnd : (t = .partialOrd ∨ t = .ord) → (dw.contains .copy = true ∨ dw.contains .clone = true) → ok .noDrop = true) :
     ∀ m ∈ (generateBody c it dw t).toList, m.body.oblBad ok = false := by
   intro m hm
   cases t <;> simp only [generateBody, Option.toList, List.mem_singleton, List.not_mem_nil] at hm
@@ -542,7 +547,7 @@ theorem obl_generateBody (c : Cfg) (it : Item) (dw : DeriveWhere) (t : Trait)
       (Arm.anyOblBad_flatMap _ _ (fun x hx => ordArms_obl (ok := ok) x.1 x.2 (fun t' ht' => by
         rcases ht' with rfl | rfl
         · exact hok x hx _ (Or.inr (Or.inr ⟨rfl, rfl⟩))
-        · exact hok x hx _ (Or.inl rfl)))) hcopy hclone
+        · exact hok x hx _ (Or.inl rfl)))) hcopy hclone (hnd (.inr rfl))
   case partialEq =>
     subst hm
     exact obl_eq (ok := ok) c it (fun x hx => hok x hx _ (Or.inl rfl))
@@ -556,7 +561,7 @@ theorem obl_generateBody (c : Cfg) (it : Item) (dw : DeriveWhere) (t : Trait)
         (Arm.anyOblBad_flatMap _ _ (fun x hx => partialOrdBody_obl (ok := ok) dw x.1 x.2 (fun t' ht' => by
           rcases ht' with rfl | rfl
           · exact hok x hx _ (Or.inl rfl)
-          · exact hok x hx _ (Or.inr (Or.inl ⟨rfl, rfl⟩))))) hcopy hclone
+          · exact hok x hx _ (Or.inr (Or.inl ⟨rfl, rfl⟩))))) hcopy hclone (hnd (.inl rfl))
   case zeroize =>
     subst hm
     have harms : Arm.anyOblBad ok (it.indexed.flatMap fun (k, d) => zeroizeBody k d) = false :=
